@@ -10,6 +10,7 @@ import AsmjitVerif.Lemmas.C06SysV
 import AsmjitVerif.Lemmas.C06Win64
 import AsmjitVerif.Lemmas.C06A64
 import AsmjitVerif.Spec.Machine
+import AsmjitVerif.Lemmas.C06ShuffleLoop
 namespace AsmjitVerif.C06
 open AsmjitVerif.CallConv AsmjitVerif.ABI
 
@@ -180,8 +181,7 @@ example : ∃ cc d, initFuncDetail ⟨.x64, false, false⟩ { ccid := 0, args :=
   instruction `emit_arg_move` selects on x86 turns a source-form token into a destination-form token (sign- or zero-extension exactly
   as `VarInfo.required` says), for register and memory sources, and the same for AArch64 loads; (b) the negation of the
   full-strength statement at the K3/K4/K5 witnesses and the refusal of a 3-cycle (#20), on the model that the correspondence ties to
-  the real code.  The schedule-level induction (the invariant "every pending value sits where `cur` says, no instruction writes an
-  assigned register") is not done. -/
+  the real code; (c) the schedule-level induction for the register phase (`shuffle_regphase_correct`, end of this section). -/
 section Shuffle
 open AsmjitVerif.Shuffle AsmjitVerif.Machine
 
@@ -269,6 +269,48 @@ example :
     let vals := [(FuncValue.reg 34 5 7, some (FuncValue.reg 40 6 7)), (FuncValue.stack 36 0, some (FuncValue.reg 38 5 3))]
     let r := emitArgsAssignment { arch := .x64 } frX64 255 vals
     r.1 = none ∧ r.2.length = 2 ∧ judge .x64 frX64 vals r.2 = some true := by decide +kernel
+
+/-! ### the register phase, every assignment (schedule-level induction)
+
+  `Lemmas/C06ShuffleInv|Step|Swap|Loop` prove, by induction over the visits of a pass and over the passes of the `for (;;)` loop of
+  `emit_args_assignment`, the invariant `C06S.WF`:
+    * `_phys_to_var_id` is the inverse of the variables' current registers;
+    * every variable's value sits in its current register as a token of that variable – in source form while it was never moved,
+      in destination form after a move (to its destination *or* to a scratch register) or an exchange;
+    * an instruction only writes a register that holds no variable (`EmitMove` into an unassigned register / a self-move), or
+      exchanges two variables' registers (`xchg`) updating both; done variables sit in their destination in destination form;
+    * in a swap-capable group a variable that is not done has never moved.
+  Consequence (`shuffle_regphase_correct`): for ANY number of register arguments in any groups (GP, vector, mask, mm) with arbitrary
+  injective register destinations – chains, 2-cycles (exchanged on x86 GP, broken through a scratch register elsewhere), longer
+  cycles (through a scratch register where there is no `xchg`; refused on x86 GP, defect #20), widening self-moves – if the pass loop
+  returns `ok`, the emitted list, executed on the machine from the state that held the context's tokens, leaves every variable's
+  destination register holding that variable in destination form.
+  Hypotheses `C06S.Hyp` (exactly what excludes the open findings):
+    * `first`/`again` – the instruction `emit_arg_move` selects for the variable's (destination, source) register types and type ids
+      is a two-register move inside the group that produces destination form (false for K5: AArch64 `mov xd, xs` on a widening
+      variable; true for every x86 integer pair by `x86_int_arg_move_extends`);
+    * `swap` – two variables of a swap-capable group that form a 2-cycle are both left in destination form by the exchange (false
+      exactly for K3: a widening variable in an exchanged pair);
+    * K4 (destination in another group) is excluded by `WF` itself: every variable's destination lies in the group of its source.
+  NOT covered by this theorem (stated, not proved): (1) that `init_work_data` establishes `WF` for the initial context (a fold over
+  the arguments; needs pairwise distinct source registers, which every FuncDetail has) – so the statement below starts from a
+  well-formed context instead of from `emitArgsAssignment`; (2) phase 1 (stack destinations) and phase 3 (stack sources) and the
+  stack-argument (SA) variable. -/
+theorem shuffle_regphase_correct (p : C06S.Params) (hy : C06S.Hyp p) (e : Emit) (M : State) (hw : C06S.WF p e M)
+    (fuel : Nat) (e' : Emit) (h : shuffleLoop p.cfg p.n fuel e {} = .ok e') :
+    ∃ M', run p.vis p.f.saOffSp p.f.saOffSa (spId p.cfg.arch) p.M0 e'.out = some M' ∧
+      ∀ i, i < p.n → destOk M' i (.reg (groupOf (p.out i).regType) (p.out i).regId) = true :=
+  C06S.regphase_correct p hy e M hw fuel e' h
+
+-- non-vacuity of the selection hypotheses: an x86-64 int64 -> int64 variable satisfies `first` and `again` for every register pair,
+-- and a 2-cycle of such variables satisfies `swap`
+example : ∀ d ∈ List.range 32, ∀ s ∈ List.range 32,
+    C06S.moveOkAt { arch := .x64 } [⟨40, 40⟩] 6 40 6 40 (initTok [⟨40, 40⟩] 0) d s = true ∧
+    C06S.moveOkAt { arch := .x64 } [⟨40, 40⟩] 6 40 6 40 ⟨0, false, true⟩ d s = true := by decide +kernel
+example : (C06S.swapTok [⟨40, 40⟩] 6 (initTok [⟨40, 40⟩] 0)).dv = true := by decide +kernel
+-- ... and the K5 / K3 classes violate them
+example : C06S.moveOkAt { arch := .a64 } [⟨34, 40⟩] 6 40 5 34 (initTok [⟨34, 40⟩] 0) 0 0 = false := by decide +kernel
+example : (C06S.swapTok [⟨38, 40⟩] 6 (initTok [⟨38, 40⟩] 0)).dv = false := by decide +kernel
 
 end Shuffle
 
